@@ -586,6 +586,8 @@ func runC03(p *P, r *R) {
 	c03Guards(p, r, fr)
 	c03Tightness(p, r, fr)
 	c03ObjectSize(p, r)
+	// R03.9 slots are pairwise disjoint only if every descriptor's payload window is exactly its slot (shared with C01 R01.13)
+	borrow(p, r, "C01", runC01, map[string]string{"R01.13": "R03.9"}, nil)
 }
 
 // c03ObjectSize (R03.8): the mapping side derives the geometry from the size of the backing object (queue split point
@@ -701,16 +703,33 @@ func c03Sizes(p *P, r *R, fr freeListRoles, H, LH int64) {
 			if a.Kind != "store" || a.K != nextO || a.Width != 4 || !isLoadOf(a.Base, "bufferList.bufferRegion") {
 				continue
 			}
-			// the link stored is current + capPerBuffer + H, and it becomes the next `current`
-			sy, k := splitConst(a.Val)
-			if add, ok := sy.(*ssa.BinOp); ok && k == H && add.Op == token.ADD {
-				ph, isPhi := add.X.(*ssa.Phi)
-				_, isPar := add.Y.(*ssa.Parameter)
-				if isPhi && isPar && a.Sym == ssa.Value(ph) {
-					for _, e := range ph.Edges {
-						if e == a.Val {
-							stride = true
-						}
+			// the link stored is current + capPerBuffer + H, and it becomes the next `current` (compared as linear terms,
+			// so `stride := capPerBuffer + H; link = current + stride; current += stride` is the same thing)
+			ph, isPhi := stripConv(a.Sym).(*ssa.Phi)
+			if !isPhi {
+				continue
+			}
+			link := symLin(a.Val, 6)
+			step := link.add(symLin(ph, 0), -1)
+			okStep := step.c == H && len(step.k) == 1
+			for k, v := range step.k {
+				isParam := false
+				for _, prm := range c.Params {
+					if valKey(prm) == k {
+						isParam = true
+					}
+				}
+				if v != 1 || !isParam {
+					okStep = false
+				}
+			}
+			if okStep {
+				for _, e := range ph.Edges {
+					if _, isC := constInt(e); isC {
+						continue
+					}
+					if symLin(e, 6).equal(link) {
+						stride = true
 					}
 				}
 			}
